@@ -18,6 +18,18 @@ CHECKS = {
         "Sizes above 70 kB only at the explicit boundary lengths.",
         "DESIGN.md 4/C01",
     ),
+    "C02": (
+        "exploration",
+        "differential testing against an independent reference codec (both directions) + frozen golden corpus",
+        "Every generated stream the implementation writes is decoded strictly by a codec written from the format "
+        "description (own msgpack subset, own SHA-256 identifier, descriptor-before-record rule) and compared as typed "
+        "models; reference-encoded streams with format-permitted variation (non-minimal widths, float32, ISO UTC "
+        "timestamps, no version, extra reserved values, bare-name identifiers, repeated descriptor/header frames) and "
+        "14 golden files frozen at the pinned revision must be read back as the records they encode.",
+        "Trusts /verif's reference codec (vlib/refcodec.py; cross-checked against the golden corpus on every run) and "
+        "the golden corpus as the authority for per-type encodings.",
+        "DESIGN.md 4/C02",
+    ),
 }
 
 NOT_APPLICABLE = {}
